@@ -19,7 +19,7 @@ def monitors_for(prop):
 
 
 def module_for(prop):
-    for name in ("fam_comp", "fam_server"):
+    for name in ("fam_read", "fam_watch", "fam_compact", "fam_retry", "fam_comp", "fam_server"):
         try:
             m = __import__(name)
             mm = getattr(m, "T_MODULE", {})
